@@ -202,7 +202,7 @@ structure St where
   env : Env
   /-- static locals: one cell per (function, name), absent until first initialised -/
   statics : Statics
-  /-- echoed strings, oldest first -/
+  /-- echoed strings, newest first -/
   out : List String
 
 /-- what the running code belongs to: `none` = main program, `some (f, statics of f)` -/
@@ -220,7 +220,7 @@ def St.wr (cur : Cur) (s : St) (x : Var) (v : Val) : St :=
     else { s with env := aset s.env x v }
   | none => { s with env := aset s.env x v }
 
-def St.echo (s : St) (v : Val) : St := { s with out := s.out ++ [v.toStr] }
+def St.echo (s : St) (v : Val) : St := { s with out := v.toStr :: s.out }
 
 inductive Res (α : Type) where
   | ok (a : α) (s : St)
@@ -491,11 +491,11 @@ inductive Status where
 (a `break`/`continue` that reaches the top level is one). -/
 def run (p : Prog) (fuel : Nat) : Option (List String × Status) :=
   match execB p.funs fuel none p.main St.init with
-  | .ok .normal s => some (s.out, .done)
-  | .ok (.ret _) s => some (s.out, .done)
-  | .ok (.brk _) s => some (s.out, .error)
-  | .ok (.cont _) s => some (s.out, .error)
-  | .err s => some (s.out, .error)
+  | .ok .normal s => some (s.out.reverse, .done)
+  | .ok (.ret _) s => some (s.out.reverse, .done)
+  | .ok (.brk _) s => some (s.out.reverse, .error)
+  | .ok (.cont _) s => some (s.out.reverse, .error)
+  | .err s => some (s.out.reverse, .error)
   | .timeout => none
 
 end Spec.Ctl
